@@ -14,7 +14,7 @@ import traceback
 
 VERIF = os.path.dirname(os.path.dirname(os.path.abspath(__file__)))
 REPLAY_DIR = os.path.join(VERIF, "replays")
-KNOWN_FILE = os.path.join(VERIF, "known_findings.json")
+KNOWN_FILE = os.environ.get("VERIF_KNOWN_FILE") or os.path.join(VERIF, "known_findings.json")   # the override is for tooling experiments only (tools/), never for registered commands
 EVIDENCE_DIR = os.path.join(VERIF, "evidence")
 
 COMPONENTS = {
